@@ -23,9 +23,13 @@ PtrHdr    == 8
 IfaceHdr  == 16
 
 RECURSIVE SizeD(_, _)
-SumOver(n, F(_)) == LET RECURSIVE S(_)
-                        S(i) == IF i > n THEN 0 ELSE F(i) + S(i + 1)
-                    IN S(1)
+\* sum of F(1) .. F(n).  Divide and conquer: the recursion is log n deep (a linear recursion of depth 65,536 takes TLC
+\* a quarter of an hour: every level lengthens the evaluation context the next one searches).
+SumOver(n, F(_)) == LET RECURSIVE S(_, _)
+                        S(lo, hi) == IF lo > hi THEN 0
+                                     ELSE IF lo = hi THEN F(lo)
+                                     ELSE LET mid == (lo + hi) \div 2 IN S(lo, mid) + S(mid + 1, hi)
+                    IN S(1, n)
 Elem(v, i) == IF "dup" \in DOMAIN v.el[i] THEN v.el[v.el[i].dup + 1] ELSE v.el[i]
 SizeD(t, v) ==
     CASE t.k \in Scalars -> ScalarSize[t.k]
